@@ -20,7 +20,7 @@ EXPLANATION = (
     "smap.best_recoverable_version()) wrapped in MutableData and handed to node.upload with the same servermap; "
     "best_recoverable_version is the maximum of the recoverable versions; (5) Publish.publish adds every "
     "get_bad_shares() key to the goal and writes it with the recorded old checkstring; mark_bad_share records the "
-    "checkstring and drops the share from the known shares; update_goal() (homes for shares that have none, i.e. the missing "
+    "checkstring and drops the share from the known shares, Retrieve._mark_bad_share also lists it in the verifier's result; update_goal() (homes for shares that have none, i.e. the missing "
     "shares a repair restores) runs on the built goal before the writers are made from it; (6) MutableChecker.check builds "
     "the verdict after the verify pass from the servermap the verifier marked bad shares in; the verify pass is registered "
     "unless the verify flag was found false, is skipped only when there is no best version, returns the Deferred of the "
@@ -840,8 +840,9 @@ def run(ctx: Context):
 
     # -- 5. bad shares are replaced ---------------------------------------------
     with ctx.rule("C14.5", "R2/R1", "Publish.publish: every get_bad_shares() key joins the goal with its old checkstring, which the "
-                  "writer for that (server, shnum) uses as test vector; mark_bad_share records checkstring and forgets the share",
-                  expected=3) as r:
+                  "writer for that (server, shnum) uses as test vector; mark_bad_share records checkstring and forgets the share; "
+                  "update_goal() runs before the writers are made; the verifier lists the bad share in its result",
+                  expected=4) as r:
         fn = idx.func(PUB + ".publish")
         cfg = fn.cfg()
         fnorm = FlowNorm(fn)
@@ -976,10 +977,22 @@ def run(ctx: Context):
         rb = idx.func(RET + "._mark_bad_share")
         r.require(any(call_name(c) == "self.servermap.mark_bad_share" for c in calls_in_func(rb, "mark_bad_share")), rb, rb.loc(),
                   "Retrieve._mark_bad_share no longer tells the servermap about the bad share")
+        rbp = first_positional_params(rb)
+        rbn = FlowNorm(rb)
+        listed = False
+        for m in rb.cfg().nodes:
+            for c in node_calls(m):
+                if call_name(c) == "self._bad_shares.add" and len(c.args) == 1 and len(rbp) >= 2:
+                    t = rbn.resolve(m, c.args[0])
+                    if isinstance(t, ast.Tuple) and len(t.elts) >= 2 and [rbn.norm(m, e) for e in t.elts[:2]] == rbp[:2]:
+                        listed = True
+        r.require(listed, rb, rb.loc(), "Retrieve._mark_bad_share does not list (server, shnum, ..) in self._bad_shares, the verifier's result: "
+                  "a corrupt share found while verifying would not make check-and-repair repair the file")
 
     # -- 6. verdict after verification, from the verified servermap ---------------
     with ctx.rule("C14.6", "E7", "MutableChecker.check: _make_checker_results runs after _got_mapupdate_results and (verify) "
-                  "_verify_all_shares, on the servermap that was updated and handed to the verifier", expected=2) as r:
+                  "_verify_all_shares, on the servermap that was updated and handed to the verifier; a verifying check runs the verifier, "
+                  "waits for it, and its bad shares ask for repair", expected=4) as r:
         fn = idx.func(CHK + ".check")
         regs = registrations(fn)
         need = ["self._got_mapupdate_results", "self._verify_all_shares", "self._make_checker_results"]
